@@ -15,7 +15,8 @@ From Coq Require Import List ZArith NArith Bool String.
 Import ListNotations.
 From DD Require Import Base.PyStr Base.Value Diff.Tree Diff.DiffModel Hash.HashModel Hash.Equiv
   Hash.HashProofsBase Hash.HashProofsC07 Hash.HashProofsMemo DiffIO.DiffIOModel DiffIO.DiffIOProofs
-  DiffIO.MemoModel DiffIO.DiffIOCache DiffIO.DiffIOMemo DiffIO.DiffIOMemoProofs DiffIO.DiffIOOrder DiffIO.DiffIOMemoVerdict.
+  DiffIO.MemoModel DiffIO.DiffIOCache DiffIO.DiffIOMemo DiffIO.DiffIOMemoProofs DiffIO.DiffIOOrder DiffIO.DiffIOMemoVerdict
+  DiffIO.DiffIOCanon DiffIO.DiffIOCanonHash DiffIO.DiffIOCanonRun DiffIO.DiffIOCanonVerdict DiffIO.DiffIOCanonWitness.
 
 (* Full strength (all values, all thresholds) is false of the faithful model: *)
 
@@ -159,3 +160,142 @@ Theorem C05_guards_satisfiable :
   (forall s, s <> [] -> sepfree (unary_hash s)) /\ (forall s t, unary_hash s = unary_hash t -> s = t).
 Proof. split; [exact guards_satisfiable|]. split; [exact unary_hash_tok|exact unary_hash_inj]. Qed.
 Print Assumptions C05_guards_satisfiable.
+
+(* ================================================================== *)
+(** * The shared ==-keyed table WITHOUT the alias guard (round 3)
+
+    [run_diff_io_m] is the model the correspondence compares with the implementation on inputs with
+    ==-aliasing atoms (1 / 1.0, (1,) / (1.0,), {1:..} / {1.0:..}).  The statements below replace the guard
+    [alias_free2] by [bool_sep2] (no bool is == a non-bool atom) and say EXACTLY what finding K2 amounts to:
+    [cmap f v] renames every atom of v by f, [rho m] sends an atom to the first ==-equal atom key of the table
+    m (its first-visited representative), [rho0] is a table-independent choice (1.0 -> 1), [cb f v] renames
+    dict keys and everything below the first list / tuple / set and keeps the type of scalars reached through
+    dicts only (DiffIO/DiffIOCanon.v). *)
+
+(* DeepHash(v)[v] on a fresh table, all values: the memo-free hash of v with every atom replaced by the first
+   ==-equal atom hashed before it *)
+Theorem C05_deephash_first_visited_partial :
+  forall (H : pystr -> pystr) o v,
+  ignore_iterable_order o = true -> wf v = true -> bool_sep (atoms_of v) = true ->
+  deephash H o v = hash_pure H o (cmap (rho (snd (hash_memo H o v []))) v).
+Proof. exact deephash_first_visited. Qed.
+Print Assumptions C05_deephash_first_visited_partial.
+
+(* the whole result of the run with the shared table = the memo-free traversal [run_diff_io_cr] in which the hash
+   of an item is the memo-free hash of the item with every atom replaced by the representative the FINAL table
+   holds for it: the nested levels (and the pairing) never change what an earlier level saw *)
+Theorem C05_shared_table_run_partial :
+  forall (H : pystr -> pystr) udiff skip excl c rep pairs t1 t2,
+  wf t1 = true -> wf t2 = true -> bool_sep2 t1 t2 = true ->
+  let r := run_diff_io_m H udiff skip excl c rep pairs t1 t2 in
+  fst r = run_diff_io_cr H udiff skip excl c rep pairs (rho (snd r)) t1 t2.
+Proof. exact run_m_first_visited. Qed.
+Print Assumptions C05_shared_table_run_partial.
+
+(* THE VERDICT with the shared table, every pairing oracle, every collision-free hasher, no alias guard:
+   empty exactly when t1 and t2 are equal as nested sets / multisets modulo Python == on dict keys and on
+   everything below the first list / tuple / set *)
+Theorem C05_verdict_shared_table_partial :
+  forall (H : pystr -> pystr),
+  (forall s, s <> [] -> sepfree (H s)) -> (forall s t, H s = H t -> s = t) ->
+  forall udiff excl c rep pairs t1 t2,
+  thr_num c <= thr_den c ->
+  wf t1 = true -> wf t2 = true -> tag_safe t1 = true -> tag_safe t2 = true -> bool_sep2 t1 t2 = true ->
+  (fst (fst (run_diff_io_m H udiff no_skip excl c rep pairs t1 t2)) = [] <->
+   eqv (io_opts c rep) (cb rho0 t1) (cb rho0 t2)).
+Proof. exact verdict_shared_table. Qed.
+Print Assumptions C05_verdict_shared_table_partial.
+
+(* ... for the memo-free traversal at ANY choice f of one representative per ==-class ... *)
+Theorem C05_verdict_any_representative_partial :
+  forall (H : pystr -> pystr),
+  (forall s, s <> [] -> sepfree (H s)) -> (forall s t, H s = H t -> s = t) ->
+  forall udiff excl c rep pairs f t1 t2,
+  class_rep f -> thr_num c <= thr_den c ->
+  wf t1 = true -> wf t2 = true -> tag_safe t1 = true -> tag_safe t2 = true ->
+  (fst (run_diff_io_cr H udiff no_skip excl c rep pairs f t1 t2) = [] <-> eqv (io_opts c rep) (cb f t1) (cb f t2)).
+Proof. exact verdict_c. Qed.
+Print Assumptions C05_verdict_any_representative_partial.
+
+(* ... and the relation does not depend on that choice *)
+Theorem C05_representative_choice_irrelevant :
+  forall o f g t1 t2, class_rep f -> class_rep g ->
+  eqv o (cb f t1) (cb f t2) -> eqv o (cb g t1) (cb g t2).
+Proof. exact cb_rep_change. Qed.
+Print Assumptions C05_representative_choice_irrelevant.
+
+(* <= : no hypothesis on the hasher, no tag_safe; equal inputs (types included) are a special case *)
+Theorem C05_equal_gives_empty_shared_table_partial :
+  forall (H : pystr -> pystr) udiff excl c rep pairs t1 t2,
+  thr_num c <= thr_den c -> wf t1 = true -> wf t2 = true -> bool_sep2 t1 t2 = true ->
+  (eqv (io_opts c rep) (cb rho0 t1) (cb rho0 t2) -> fst (run_diff_io_m H udiff no_skip excl c rep pairs t1 t2) = ([], [])) /\
+  (eqv (io_opts c rep) t1 t2 -> fst (run_diff_io_m H udiff no_skip excl c rep pairs t1 t2) = ([], [])).
+Proof. exact equal_gives_empty_shared_table_both. Qed.
+Print Assumptions C05_equal_gives_empty_shared_table_partial.
+
+(* knob independence of the run with the shared table, without the alias guard *)
+Theorem C05_knob_independence_shared_table_partial :
+  forall (H : pystr -> pystr),
+  (forall s, s <> [] -> sepfree (H s)) -> (forall s t, H s = H t -> s = t) ->
+  forall udiff udiff' excl excl' c c' rep pairs pairs' t1 t2,
+  thr_num c <= thr_den c -> thr_num c' <= thr_den c' ->
+  DiffModel.ignore_private c = DiffModel.ignore_private c' ->
+  wf t1 = true -> wf t2 = true -> tag_safe t1 = true -> tag_safe t2 = true -> bool_sep2 t1 t2 = true ->
+  (fst (fst (run_diff_io_m H udiff no_skip excl c rep pairs t1 t2)) = [] <->
+   fst (fst (run_diff_io_m H udiff' no_skip excl' c' rep pairs' t1 t2)) = []).
+Proof. exact knob_independence_shared_table. Qed.
+Print Assumptions C05_knob_independence_shared_table_partial.
+
+(* the guard bool_sep2 cannot be dropped: [{True:'a'}] vs [{1:'a'}] is {} when the pairing hands the two items to
+   the recursive diff (default knobs) and values_changed when it does not (max_passes=0): the verdict depends on
+   the pairing knobs *)
+Theorem C05_bool_alias_knob_refuted :
+  forall rep udiff,
+  let t1 := VList [VDict [(ABool true, VAtom (AStr (s2p "a")))]] in
+  let t2 := VList [VDict [(AInt 1, VAtom (AStr (s2p "a")))]] in
+  wf t1 = true /\ wf t2 = true /\ tag_safe t1 = true /\ tag_safe t2 = true /\ bool_sep2 t1 t2 = false /\
+  fst (run_diff_io_m hexhash udiff no_skip no_skip cfg_default rep (fun _ => [(0, 0)]%nat) t1 t2) = ([], []) /\
+  fst (fst (run_diff_io_m hexhash udiff no_skip no_skip cfg_default rep (fun _ => []) t1 t2)) <> [].
+Proof. exact bool_key_knob_refuted. Qed.
+Print Assumptions C05_bool_alias_knob_refuted.
+
+(* more of K2: dict values of list items, a hashable tuple looked up as a whole, multiplicities *)
+Theorem C05_alias_family_refuted :
+  forall udiff pairs,
+  (forall rep,
+   let t1 := VList [VDict [(AStr (s2p "x"), VAtom (AInt 1))]] in
+   let t2 := VList [VDict [(AStr (s2p "x"), VAtom (AHalf 2))]] in
+   fst (run_diff_io_m hexhash udiff no_skip no_skip cfg_default rep pairs t1 t2) = ([], []) /\
+   fst (run_diff_io hexhash udiff no_skip no_skip cfg_default rep (fun _ => []) t1 t2) <> []) /\
+  (forall rep,
+   let t1 := VList [VTuple [VAtom (AInt 1); VAtom (AStr (s2p "a"))]] in
+   let t2 := VList [VTuple [VAtom (ABool true); VAtom (AStr (s2p "a"))]] in
+   fst (run_diff_io_m hexhash udiff no_skip no_skip cfg_default rep pairs t1 t2) = ([], []) /\
+   fst (run_diff_io hexhash udiff no_skip no_skip cfg_default rep (fun _ => []) t1 t2) <> []) /\
+  (let t1 := VList [VAtom (AInt 1); VAtom (AHalf 2)] in
+   let t2 := VList [VAtom (AInt 1); VAtom (AInt 1)] in
+   fst (run_diff_io_m hexhash udiff no_skip no_skip cfg_default true pairs t1 t2) = ([], []) /\
+   fst (run_diff_io hexhash udiff no_skip no_skip cfg_default true (fun _ => []) t1 t2) <> []).
+Proof. exact alias_family_refuted. Qed.
+Print Assumptions C05_alias_family_refuted.
+
+(* the relation is exact about where == is used: {'x':1} vs {'x':1.0} is a type change, [{'x':1}] vs [{'x':1.0}] is {} *)
+Theorem C05_verdict_relation_exact :
+  forall rep udiff pairs,
+  let t1 := VDict [(AStr (s2p "x"), VAtom (AInt 1))] in
+  let t2 := VDict [(AStr (s2p "x"), VAtom (AHalf 2))] in
+  wf t1 = true /\ wf t2 = true /\ tag_safe t1 = true /\ tag_safe t2 = true /\ bool_sep2 t1 t2 = true /\
+  fst (fst (run_diff_io_m hexhash udiff no_skip no_skip cfg_default rep pairs t1 t2)) <> [] /\
+  fst (run_diff_io_m hexhash udiff no_skip no_skip cfg_default rep pairs (VList [t1]) (VList [t2])) = ([], []).
+Proof. exact root_scalar_typed. Qed.
+Print Assumptions C05_verdict_relation_exact.
+
+(* the guards of the shared-table theorems are met by inputs that DO alias (outside alias_free2): equal as nested
+   sets modulo ==, different as nested multisets *)
+Theorem C05_shared_table_guards_satisfiable :
+  wf ex_alias_t1 = true /\ wf ex_alias_t2 = true /\ tag_safe ex_alias_t1 = true /\ tag_safe ex_alias_t2 = true /\
+  bool_sep2 ex_alias_t1 ex_alias_t2 = true /\ alias_free2 ex_alias_t1 ex_alias_t2 = false /\
+  fst (run_diff_io_m hexhash (fun _ _ => []) no_skip no_skip cfg_default false (fun _ => []) ex_alias_t1 ex_alias_t2) = ([], []) /\
+  fst (fst (run_diff_io_m hexhash (fun _ _ => []) no_skip no_skip cfg_default true (fun _ => []) ex_alias_t1 ex_alias_t2)) <> [].
+Proof. exact shared_table_guards_satisfiable. Qed.
+Print Assumptions C05_shared_table_guards_satisfiable.
